@@ -192,6 +192,12 @@ def _gen_case(rng, tier):
             if rng.random() < 0.2:
                 hdrs['If-Modified-Since'] = rng.choice(['Mon, 01 Jan 2035 00:00:00 GMT', 'Thu, 01 Jan 1970 00:00:00 GMT', 'garbage'])
             case['req_headers'] = hdrs
+            if rng.random() < 0.12:
+                # a file several times as large as the block size static_file streams with, ranges across block edges
+                case['result']['name'] = 'big.bin'
+                case['req_headers'] = {'Range': rng.choice(['bytes=0-1572863', 'bytes=5-1200000', 'bytes=1048570-1048590', 'bytes=-1500000',
+                                                           'bytes=0-', 'bytes=1048576-', 'bytes=100-2097251', 'bytes=0-1048575'])} \
+                    if rng.random() < 0.8 else {}
         elif h == 'redirect':
             case['result'] = {'k': 'redirect', 'to': rng.choice(['/elsewhere', 'relative/x', 'http://other.test/a?b=c', '/ü']),
                               'code': rng.choice([None, 301, 307])}
@@ -356,6 +362,35 @@ class FakeFileWrapper:
         raise StopIteration
 
 
+BIG_SIZE = 2 * 1024 * 1024 + 4096 + 7        # more than twice the block size static_file streams with, and no multiple of it
+_BIG = {}
+
+
+def _big_root():
+    """A directory holding big.bin: a sparse file of BIG_SIZE zero bytes with a fixed modification time, so that a range
+    spanning several of static_file's read blocks costs no disk space and Last-Modified is the same in every process.
+    Created on demand (atomically; shared by all processes of this user, nothing depends on it being there beforehand)."""
+    import os
+    import tempfile
+    if 'dir' not in _BIG:
+        d = os.path.join(tempfile.gettempdir(), 'simcheck-c03-static-%d' % os.getuid())
+        os.makedirs(d, exist_ok=True)
+        fn = os.path.join(d, 'big.bin')
+        try:
+            st = os.stat(fn)
+            ok = st.st_size == BIG_SIZE and int(st.st_mtime) == 1000000000
+        except OSError:
+            ok = False
+        if not ok:
+            tmp = fn + '.%d' % os.getpid()
+            with open(tmp, 'wb') as f:
+                f.truncate(BIG_SIZE)
+            os.utime(tmp, (1000000000, 1000000000))
+            os.replace(tmp, fn)
+        _BIG['dir'] = d
+    return _BIG['dir']
+
+
 def build(spec, ctx, label='r'):
     """-> python object for a result spec; for how='raise' raises"""
     import ombott
@@ -363,6 +398,8 @@ def build(spec, ctx, label='r'):
     if k == 'static':
         import os
         root = os.path.join(os.path.dirname(os.path.dirname(os.path.abspath(__file__))), 'apps', 'static')
+        if spec['name'] == 'big.bin':
+            root = _big_root()
         return ombott.static_file(spec['name'], root, download=spec.get('download', False))
     if k == 'redirect':
         ombott.redirect(spec['to'], spec.get('code'))
@@ -683,7 +720,7 @@ def serve_and_check(case, app, suffix):
                 want = {200}
                 import os
                 fn = os.path.join(os.path.dirname(os.path.dirname(os.path.abspath(__file__))), 'apps', 'static', rk['name'])
-                data = open(fn, 'rb').read()
+                data = open(fn, 'rb').read() if rk['name'] != 'big.bin' else bytes(BIG_SIZE)
                 if case['method'] != 'HEAD' and not r.stopped_early and r.body != data and code == 200:
                     violation(res, 'C03:helper-result', f'static_file({rk["name"]!r}) delivered {len(r.body)} bytes, the file has {len(data)}')
             else:
